@@ -40,7 +40,7 @@ FILTERS = [
     {"kinds": [1], "since": E.T0 + 3}, {"kinds": [1, 2], "until": E.T0 + 4}, {"kinds": [20000]},
     {"authors": [E.PKS[1]], "kinds": [1]}, {"#t": [""]},
 ]
-SUBS = ["s1", "s2", "s3"]
+SUBS = ["s1", "s2", "s3", 'q"uote', "a\\u0041", "aA"]   # ids needing JSON escaping; one that un-escapes to another one
 TAGSETS = [[], [["t", "a"]], [["t", ""]], [["t", "b"]], [["t", "a"], ["t", ""]]]
 
 
@@ -96,6 +96,14 @@ def st_schedule(draw):
         motif += draw(st.sampled_from([[], [["pump", 1]], [["qrelease", 0], ["yield", 3]]]))
         at = draw(st.integers(0, len(ops)))
         ops[at:at] = motif
+    if draw(st.integers(0, 3)) == 0:
+        # motif: the same new event arrives on two or three connections in the same instant
+        k = draw(st.integers(2, 3))
+        cs = draw(st.permutations([0, 1, 2, 3]))[:k]
+        first = ["event", cs[0], draw(st.sampled_from([1, 1, 2])), draw(st.integers(0, 1)), draw(st.integers(0, len(TAGSETS) - 1)), "ok", 0]
+        motif = [first] + [["event", c, 1, 0, 0, "dup-last", 0] for c in cs[1:]] + [["yield", draw(st.integers(4, 8))]]
+        at = draw(st.integers(0, len(ops)))
+        ops[at:at] = motif
     return {"backend": backend, "ops": ops}
 
 
@@ -132,7 +140,13 @@ class Fanout(Sub):
             def snapshot(t):
                 for ci, c in conns.items():
                     for raw in c.out[seen_len[ci]:]:
-                        f = json.loads(raw)
+                        try:
+                            f = json.loads(raw)
+                            if not (isinstance(f, list) and len(f) >= 2):
+                                raise ValueError(raw)
+                        except ValueError:
+                            bad_frames.append(raw)
+                            continue
                         frames[ci].append((t, f))
                         if f[0] == "EOSE":
                             mine = [I for I in instances if I["conn"] == ci and I["sub"] == f[1]]
@@ -172,6 +186,7 @@ class Fanout(Sub):
 
             alive = {}
             addr2ci = {}
+            bad_frames = []
             for t, op in enumerate(case["ops"]):
                 if op[0] in ("req", "event", "close", "disconnect"):
                     ci = op[1]
@@ -196,8 +211,11 @@ class Fanout(Sub):
                 elif op[0] == "event":
                     counter += 1
                     mode = op[5]
-                    if mode == "dup" and any(e["valid"] for e in events):
-                        src = [e for e in events if e["valid"]][counter % len([e for e in events if e["valid"]])]
+                    if mode in ("dup", "dup-last") and any(e["valid"] for e in events):
+                        valid_evs = [e for e in events if e["valid"]]
+                        src = valid_evs[-1] if mode == "dup-last" else valid_evs[counter % len(valid_evs)]
+                        if mode == "dup-last" and src["t_settled"] is None:
+                            labels.append("same-event-on-several-connections-at-once")
                         c.feed(["EVENT", src["ev"]], op[6])
                         src["dups"] += 1
                     else:
@@ -273,6 +291,8 @@ class Fanout(Sub):
             snapshot(T)
             if rig.stuck:
                 viol.append(V("stuck-on-lock", "tasks finish", waiting=rig.stuck))
+            if bad_frames:
+                viol.append(V("frame-not-deliverable", "a frame that does not parse reaches no subscription", raw=bad_frames[0][:200]))
             # which events were accepted (OK true seen on the submitting connection)
             accepted = {}
             for ev in events:
